@@ -111,7 +111,27 @@ impl Dump {
                 let q = self.pat(q);
                 format!("(pa {} {} {})", Self::sp(p.span), i, q)
             }
-            Pattern::Record { .. } => self.fail("record-pattern"),
+            Pattern::Record { fields, .. } => {
+                // lib.rs:434-490; type fields need the record's type (on_alias): not modelled
+                let mut s = format!("(pr {}", Self::sp(p.span));
+                for f in &**fields {
+                    match f {
+                        gluon_base::ast::PatternField::Type { .. } => {
+                            return self.fail("record-pattern-type-field")
+                        }
+                        gluon_base::ast::PatternField::Value { name, value: None } => {
+                            let i = self.id(&name.value);
+                            s.push_str(&format!(" (fs {} {})", Self::sp(name.span), i));
+                        }
+                        gluon_base::ast::PatternField::Value { name, value: Some(v) } => {
+                            let v = self.pat(v);
+                            s.push_str(&format!(" (fv {} {})", Self::sp(name.span), v));
+                        }
+                    }
+                }
+                s.push(')');
+                s
+            }
         }
     }
 
@@ -258,7 +278,13 @@ fn render_match(m: &completion::Match<'_, '_>) -> String {
             },
             e.span,
         ),
-        completion::Match::Pattern(p) => ("p", p.span),
+        completion::Match::Pattern(p) => (
+            match p.value {
+                Pattern::Record { .. } => "pr",
+                _ => "p",
+            },
+            p.span,
+        ),
         completion::Match::Ident(s, _, _) => ("i", *s),
         completion::Match::Type(s, _, _) => ("t", *s),
     };
@@ -272,6 +298,11 @@ fn suggest_skipped(found: &completion::Found<'_, '_>) -> bool {
     let last_proj = matches!(last, Some(completion::Match::Expr(e)) if matches!(e.value, Expr::Projection(..)));
     let last_pattern = matches!(last, Some(completion::Match::Pattern(_)));
     if last_record {
+        return true;
+    }
+    // lib.rs:1404-1420 / 1451-1462: inside a record pattern the fields of its type are suggested
+    let last_recpat = matches!(last, Some(completion::Match::Pattern(p)) if matches!(p.value, Pattern::Record { .. }));
+    if last_recpat && !matches!(found.match_, Some(completion::Match::Expr(_)) | Some(completion::Match::Pattern(_))) {
         return true;
     }
     matches!(found.match_, Some(completion::Match::Ident(..))) && !last_pattern && last_proj
@@ -444,6 +475,12 @@ fn run_variant(cx: &mut Ctx, origin: &str, vname: &str, src: &str) {
     let mut payload = String::from("(");
     let mut classes: Vec<String> = vec![];
     let mut splices: Vec<(String, u32, u32, u32, u32, String)> = vec![];
+    // a pattern the checker rejects (undefined constructor) binds nothing for the checker
+    let do_splice = do_splice
+        && !checked
+            .error_starts
+            .iter()
+            .any(|st| inf.pattern_spans.iter().any(|(a, b)| a <= st && st <= b));
     for off in 0..=(len + 2) {
         let pos = BytePos::from(off);
         out.count("offsets");
@@ -647,7 +684,7 @@ fn run_variant(cx: &mut Ctx, origin: &str, vname: &str, src: &str) {
                 for n in names.iter() {
                     out.count("suggestions");
                     let ok = inf.in_scope(n, soff);
-                    if !ok && inf.renamed_field_at(n, soff) {
+                    if !ok && inf.renamed_field_at(n, soff) && !inf.regions.iter().any(|r| &r.name == n) {
                         // `{ field = pat }` binds what `pat` binds, never `field`
                         out.oracle_fail(
                             "suggest-out-of-scope:record-pattern-field",
@@ -694,7 +731,9 @@ fn run_variant(cx: &mut Ctx, origin: &str, vname: &str, src: &str) {
                     }
                     let mut tried: Vec<&String> = vec![];
                     for n in names.iter() {
-                        if tried.contains(&n) || tried.len() >= 6 || n.is_empty() {
+                        // (upper-case names live in the constructor namespace of the checker: a
+                        // function binding that happens to be called `Some` is not resolvable)
+                        if tried.contains(&n) || tried.len() >= 6 || n.is_empty() || !n.starts_with(|c: char| c.is_ascii_lowercase()) {
                             continue;
                         }
                         tried.push(n);
@@ -714,7 +753,7 @@ fn run_variant(cx: &mut Ctx, origin: &str, vname: &str, src: &str) {
             cx.out.count("spliced-suggestions:name-already-undefined-in-program(not judged)");
             continue;
         }
-        let class = if inf.renamed_field_at(&n, soff) {
+        let class = if inf.renamed_field_at(&n, soff) && !inf.regions.iter().any(|r| r.name == n) {
             "record-pattern-field".to_string()
         } else if inf.in_scope(&n, soff) {
             "scope-oracle-says-in-scope".to_string()
